@@ -18,9 +18,9 @@ demo=$wt/demo
 if [ -f $demo/Cargo.toml ]; then
   echo "== demo with change" >> $log
   (cd $demo && CARGO_TARGET_DIR=$wt/target-demo timeout 1500 cargo test --offline --release 2>&1 | grep -E "^test result|FAILED|panicked|error" | head -10; (cd $demo && CARGO_TARGET_DIR=$wt/target-demo timeout 600 cargo run --offline --release 2>&1 | tail -3)) >> $log 2>&1
-  git stash -q
+  git diff > $out/.applied.diff; git apply -R $out/.applied.diff
   echo "== demo without change" >> $log
   (cd $demo && CARGO_TARGET_DIR=$wt/target-demo timeout 1500 cargo test --offline --release 2>&1 | grep -E "^test result|FAILED|panicked|error" | head -10; (cd $demo && CARGO_TARGET_DIR=$wt/target-demo timeout 600 cargo run --offline --release 2>&1 | tail -3)) >> $log 2>&1
-  git stash pop -q
+  git apply $out/.applied.diff; rm -f $out/.applied.diff
 fi
 echo "== done" >> $log
